@@ -128,7 +128,11 @@ Fixpoint assoc_float (tbl : list (Z * str)) (k : Z) : str :=
    the Enum values occurring; rx_ok is not consulted (regexp parameters are regexp literals, not strings). *)
 Definition type_check (floats : list (Z * str)) (c : ty * str * option ty * list ty * bool) : bool :=
   let '(t, text, t2, au, full) := c in
-  let accepts_undef x := existsb (ty_beq x) au in
+  (* the oracle is looked up modulo the tuple flag `size != nil` (canon): the flag is not part of what a type
+     accepts, and a nested type that was built without a size (a Tuple without slots: flag false) comes back from
+     its text with one (Tuple[0, 0]: flag true), so the value type on which the key of the reparsed Struct is
+     decided differs from the entry of the table in that flag only *)
+  let accepts_undef x := existsb (fun y => ty_beq (canon x) (canon y)) au in
   str_eqb (print_ty (assoc_float floats) accepts_undef t) text &&
   (if full then
      match reparse (fun s => s) (fun _ => true) accepts_undef t, t2 with
